@@ -1,0 +1,40 @@
+// Verification hooks (compiled only with `--cfg html5ever_verif`).
+//
+// Observers only: a thread-local callback receives events describing steps that are not
+// visible through the public API.  With the cfg off this module does not exist.
+
+use std::cell::RefCell;
+
+/// An event emitted by an instrumented site.
+#[derive(Debug, Clone, PartialEq, Eq)]
+pub enum Event {
+    /// One iteration of `stream::decode_to_sink`: the decoder result (0 = InputEmpty,
+    /// 1 = OutputFull, 2 = Malformed), input length before the call, bytes read,
+    /// bytes written, and the `last` flag.
+    DecodeIter {
+        result: u8,
+        input_len: usize,
+        read: usize,
+        written: usize,
+        last: bool,
+    },
+}
+
+thread_local! {
+    static HOOK: RefCell<Option<Box<dyn FnMut(Event)>>> = const { RefCell::new(None) };
+}
+
+/// Install (or remove) this thread's event callback.
+pub fn set_hook(h: Option<Box<dyn FnMut(Event)>>) {
+    HOOK.with(|c| *c.borrow_mut() = h);
+}
+
+pub(crate) fn emit(e: Event) {
+    HOOK.with(|c| {
+        if let Ok(mut g) = c.try_borrow_mut() {
+            if let Some(f) = g.as_mut() {
+                f(e);
+            }
+        }
+    });
+}
